@@ -433,6 +433,9 @@ def c05_scenarios(seed, tier):
             rej = not (t == 1 and 8 <= pos < 32)
             out.append({"kind": "adss_scenario", "m": "010203", "r": "0405", "t": t, "n_shares": n, "fault_lo": pos, "fault_hi": pos + 1,
                         "fault_bytes": "", "flip": True, "must_reject": rej})
+    for t in (1, 2, 3):
+        out.append({"kind": "adss_mixed", "ma": "0a0b", "ra": "01", "mb": "0c0d0e", "rb": "02", "t": t, "rounds": 4 if tier == "quick" else 12})
+    out.append({"kind": "adss_mixed", "ma": "0a0b", "ra": "01", "mb": "0a0b", "rb": "02", "t": 2, "rounds": 4})
     for t, n in ((1, 2), (1, 3), (2, 3), (2, 4)):
         out.append({"kind": "adss_scenario", "m": "010203", "r": "0405", "t": t, "n_shares": n, "fault_lo": 0, "fault_hi": 4,
                     "fault_bytes": n.to_bytes(4, "little").hex(), "must_reject": True})
@@ -459,7 +462,25 @@ def c16_scenarios(seed, tier):
 
 def c06_scenarios(seed, tier):
     out = [{"kind": "gen_script", "t": 2, "words": [0] * (3 * k) + [5, 0, 0]} for k in (0, 1, 2, 3, 5)]
+    # candidates p-1, p-2, 1, 2^64, 2^128 (a point derived from the draw by +-1 must not hit 0 either)
+    for w in ([12450, 0, 1], [12449, 0, 1], [1, 0, 0], [0, 1, 0], [0, 0, 1], [2**64 - 1, 2**64 - 1, 0],
+              [0, 12451, 0], [12451, 18446744073709539165, 0], [12451, 18446744073709526714, 0]):  # raw limbs are Montgomery form: -1, 1, 2
+        out.append({"kind": "gen_script", "t": 2, "words": [str(x) for x in w] + ["7", "0", "0"]})
     out += [{"kind": "dealer_draws", "t": t, "elements": e} for t in (1, 2, 3, 255, 256, 257, 65535, 65536, 65537) for e in (1, 2)]
+    return out
+
+
+def server_scenarios(seed, tier):
+    rnd = random.Random(seed)
+    hist = [[], [0], [255], [1], [0, 128], [128, 0], [1, 2], [2, 2], [0, 255, 1], [127, 255], [3, 2, 1]]
+    if tier != "quick":
+        hist += [[rnd.randrange(256) for _ in range(rnd.randrange(1, 7))] for _ in range(20)]
+        hist += [[a, a ^ 0x80] for a in (0, 1, 2, 127, 255)] + [[a ^ 0x80, a] for a in (0, 1, 2, 127, 255)]
+    out = []
+    for reg in ([0, 255], [1, 2], [], [5, 5, 9], list(range(0, 256, 37))):
+        for ps in hist:
+            for md, dec in ((0, True), (1, True), (255, True), (7, False)):
+                out.append({"kind": "server_history", "registered": reg, "punctures": ps, "md": md, "decodable": dec})
     return out
 
 
@@ -470,6 +491,8 @@ NATIVE_FAMILIES = {
     "native::c05-faults": c05_scenarios,
     "native::c16-scenarios": c16_scenarios,
     "native::c06-dealer-gen": c06_scenarios,
+    "native::ggm-sweep": lambda seed, tier: [{"kind": "ggm_sweep", "seed": s} for s in ([seed] if tier == "quick" else [seed, seed + 1, seed + 2, seed + 3])],
+    "native::server-histories": lambda seed, tier: server_scenarios(seed, tier),
     "native::c09-foreign-input": lambda seed, tier: [{"kind": "c09_foreign", "seed": s} for s in ([seed] if tier == "quick" else [seed, seed + 1, seed + 2])],
 }
 
@@ -511,8 +534,34 @@ def run_native(obs, tier, seed, log, logdir):
     return results
 
 
+class mem_cap:
+    """soft address-space cap while the in-process interpreter runs: a change that sends it into
+    unbounded growth ends in MemoryError (reported as inconclusive), not in the OOM killer"""
+
+    def __init__(self, gb):
+        self.gb = gb
+
+    def __enter__(self):
+        import resource
+        self.old = resource.getrlimit(resource.RLIMIT_AS)
+        soft = self.gb << 30
+        if self.old[1] != resource.RLIM_INFINITY:
+            soft = min(soft, self.old[1])
+        resource.setrlimit(resource.RLIMIT_AS, (soft, self.old[1]))
+
+    def __exit__(self, *a):
+        import resource
+        resource.setrlimit(resource.RLIMIT_AS, self.old)
+        return False
+
+
 def run_ggm(obs, tier, seed, log, logdir):
     """C10 / C11 / C14: symbolic execution of ppoprf's MIR (see mirsmt/ggm.py)"""
+    with mem_cap(int(os.environ.get("VERIF_ENGINE_M_GB", "20"))):
+        return _run_ggm(obs, tier, seed, log, logdir)
+
+
+def _run_ggm(obs, tier, seed, log, logdir):
     from mirsmt import c07, ggm
     results = []
     t0 = time.time()
@@ -543,7 +592,7 @@ def run_ggm(obs, tier, seed, log, logdir):
                 q = [q for q in bad if q["verdict"] == "sat"][0]
                 mi = model_inputs(q["raw"])
                 stt, why = "fail", "%s: %s" % (q["tag"][0], q["tag"][2])
-                info["playback_cases"] = [ggm_case(mi, k, q["tag"])]
+                info["playback_cases"] = [ggm_case(mi, k, q["tag"])] + (server_cases(mi, k, q["tag"]) if q["tag"][0].startswith("c14::") else [])
                 info["model"] = mi
             else:
                 stt = "inconclusive"
@@ -571,6 +620,25 @@ def ggm_case(mi, k, tag):
             "claim": "%s: %s" % (tag[0], tag[2])}
 
 
+def server_cases(mi, k, tag):
+    """solver model of a c14:: query (tag bits t1..tk, request tag md, decodability) -> native case"""
+    import re
+    def byte(name):
+        v = 0
+        for i in range(8):
+            if mi.get("%s_%d" % (name, i)) in (1, True, "true"):
+                v |= 1 << i
+        return v
+    m = re.search(r"reg=\[([0-9, ]*)\]", tag[0])
+    reg = [int(x) for x in m.group(1).split(",") if x.strip()] if m else []
+    ps = [byte("t%d" % i) for i in range(1, k + 1)]
+    dec = mi.get("decodable") in (1, True, "true")
+    cs = [{"kind": "server_history", "registered": reg, "punctures": ps, "md": byte("md"), "decodable": dec, "claim": "%s: %s" % (tag[0], tag[2])}]
+    if not dec:
+        cs.append(dict(cs[0], decodable=True))
+    return cs
+
+
 def run_recover(obs, tier, seed, log, logdir):
     from mirsmt import c07, c06_recover
     import run as runmod
@@ -588,7 +656,8 @@ def run_recover(obs, tier, seed, log, logdir):
                 E = c07.Engine(mir_text, log=lambda *_: None)
                 E.qdir = os.path.join(VERIF, ".cache", "smt-queries-recover")
                 shutil.rmtree(E.qdir, ignore_errors=True)
-                ncases = c06_recover.obligations(E, n_max=3 if tier == "quick" else 4)
+                with mem_cap(int(os.environ.get("VERIF_ENGINE_M_GB", "20"))):
+                    ncases = c06_recover.obligations(E, n_max=3 if tier == "quick" else 4)
                 done = E.flush(cap_s=120)
                 bad = [q for q in done if q["expect"] == "unsat" and q["verdict"] != "unsat"]
                 feas = sum(1 for q in done if q["expect"] == "sat" and q["verdict"] == "sat")
@@ -617,7 +686,8 @@ def run_recover(obs, tier, seed, log, logdir):
                 E = c07.Engine(mir_text, log=lambda *_: None)
                 E.qdir = os.path.join(VERIF, ".cache", "smt-queries-dealer")
                 shutil.rmtree(E.qdir, ignore_errors=True)
-                ncases = dealer.obligations(E, nels=(1, 2), n_iter=4 if tier == "quick" else 8)
+                with mem_cap(int(os.environ.get("VERIF_ENGINE_M_GB", "20"))):
+                    ncases = dealer.obligations(E, nels=(1, 2), n_iter=4 if tier == "quick" else 8)
                 done = E.flush(cap_s=120)
                 bad = [q for q in done if q["expect"] == "unsat" and q["verdict"] != "unsat"]
                 feas = [q for q in done if q["expect"] == "sat"]
